@@ -164,7 +164,7 @@ theorem fnEnd_rbFaultable (h : Handle) (r : Res) (out : Out) (tag : Nat) (db : D
     · rfl
   · rfl
 
-theorem gormSavePoint_clean (o : Oracle) (h : Handle) (he : h.err = []) (name : SpName) (db : DB) (v : Store)
+theorem gormSavePoint_clean_f (o : Oracle) (h : Handle) (he : h.err = []) (name : SpName) (db : DB) (v : Store)
     (S : List (SpName × Store)) (ht : db.tx = some { cur := v, saves := S }) (hsp : o db.calls = false) :
     (gormSavePoint o h name db).1.tx = some { cur := v, saves := (name, v) :: S } ∧
     (gormSavePoint o h name db).1.committed = db.committed ∧
@@ -173,7 +173,7 @@ theorem gormSavePoint_clean (o : Oracle) (h : Handle) (he : h.err = []) (name : 
   unfold gormSavePoint execRawTx drvSavepoint tick
   simp [ht, hsp, he, spErr_nil]
 
-theorem gormRollbackTo_clean (o : Oracle) (h : Handle) (he : h.err = []) (name : SpName) (db : DB) (v cur : Store)
+theorem gormRollbackTo_clean_f (o : Oracle) (h : Handle) (he : h.err = []) (name : SpName) (db : DB) (v cur : Store)
     (S : List (SpName × Store)) (ht : db.tx = some { cur := cur, saves := (name, v) :: S }) (hrf : db.rbFaultable = false) :
     (gormRollbackTo o h name db).1.tx = some { cur := v, saves := (name, v) :: S } ∧
     (gormRollbackTo o h name db).1.committed = db.committed := by
@@ -203,7 +203,7 @@ theorem form_nested_local (sel : Nat → PoolSel) (o : Oracle) (h : Handle) (he 
     (hr : (formNested sel o h fs out tag db).2.2 ≠ .ok) :
     (formNested sel o h fs out tag db).1.tx = some { cur := v, saves := (SpName.auto db.calls, v) :: S } ∧
     (formNested sel o h fs out tag db).1.committed = db.committed := by
-  obtain ⟨s1, s2, s3, s4⟩ := gormSavePoint_clean o h he (SpName.auto db.calls) db v S ht hsp
+  obtain ⟨s1, s2, s3, s4⟩ := gormSavePoint_clean_f o h he (SpName.auto db.calls) db v S ht hsp
   rw [formNested_eq] at hr ⊢
   rw [if_neg (by simp [s4])] at hr ⊢
   have hfr := runForms_stmt_frame sel o (nestH (gormSavePoint o h (SpName.auto db.calls) db).2) fs hsel
@@ -225,7 +225,7 @@ theorem form_nested_local (sel : Nat → PoolSel) (o : Oracle) (h : Handle) (he 
   split
   · intro hr; exact absurd rfl hr
   · intro _
-    have hrb := gormRollbackTo_clean o (gormSavePoint o h (SpName.auto db.calls) db).2 s4 (SpName.auto db.calls) db2 v cur S
+    have hrb := gormRollbackTo_clean_f o (gormSavePoint o h (SpName.auto db.calls) db).2 s4 (SpName.auto db.calls) db2 v cur S
       (by rw [e1]; exact hcur) (by rw [e3, f4, s3]; exact hrf)
     exact ⟨hrb.1, by rw [hrb.2, e2, f1, s2]⟩
 
